@@ -459,10 +459,21 @@ static void run_one_history(const int *acts, int len, int preset, const char *ki
     if (!mon_case("%s", hk)) return;
     hist_t h; memset(&h, 0, sizeof h);
     h.dead[h.ndead++] = 424242;
-    if (preset == 1) next_backend_desc = INT_MAX - 3;
+    /* counter presets (exported variable): 1 = start from 0, jump to INT_MAX-1 after the second create, so the
+     * wrap lands on descriptors that are still live; 2 = start just below INT_MAX; 3 = start negative;
+     * 4 = like 1 but the jump happens after the third create */
+    if (preset == 1 || preset == 4) next_backend_desc = 0;
     else if (preset == 2) next_backend_desc = INT_MAX - 1;
     else if (preset == 3) next_backend_desc = -5;
-    for (int i = 0; i < len; i++) if (act_enabled(&h, acts[i])) hist_step(&h, acts[i], kind);
+    int ncreate = 0;
+    for (int i = 0; i < len; i++) {
+        if (!act_enabled(&h, acts[i])) continue;
+        hist_step(&h, acts[i], kind);
+        if (acts[i] <= A_CREATE_NULL) {
+            ncreate++;
+            if ((preset == 1 && ncreate == 2) || (preset == 4 && ncreate == 3)) next_backend_desc = INT_MAX - 1;
+        }
+    }
     hist_finish(&h, kind);
     uint64_t hh = mon_hash(acts, sizeof(int) * (size_t)len, (uint64_t)preset);
     mon_distinct("nontrivial", hh);
@@ -503,7 +514,7 @@ static void run_registry(void)
         rng_t r; rng_seed(&r, MO.seed, 0x14000 + (uint64_t)i);
         int len = 10 + (int)rng_below(&r, 191);
         for (int j = 0; j < len; j++) acts[j] = (int)rng_below(&r, A_MAX);
-        run_one_history(acts, len, i % 4, "random");
+        run_one_history(acts, len, i % 5, "random");
     }
     /* all destruction orders of 4 RS instances */
     int perm[4] = { 0, 1, 2, 3 };
@@ -583,9 +594,13 @@ static void run_history_ops(int hidx, int len)
                     int w = (int)rng_below(&r, (uint32_t)cnt);
                     tmp[ntmp] = malloc(L->s.flen); memcpy(tmp[ntmp], lst[w], L->s.flen);
                     if (op == O_DECODE_BADHDR) tmp[ntmp][rng_below(&r, 71)] ^= (uint8_t)(1 + rng_below(&r, 255));
-                    else { int kind = (int)rng_below(&r, 3); if (kind == 0) ref_put32(tmp[ntmp] + REF_OFF_IDX, (uint32_t)(n + rng_below(&r, 3))); else if (kind == 1) tmp[ntmp][REF_OFF_BEID] ^= 1; else ref_put32(tmp[ntmp] + REF_OFF_IDX, rng_below(&r, (uint32_t)n)); ref_hdr_reseal(tmp[ntmp], 0); }
+                    else { int kind = (int)rng_below(&r, 4);
+                           /* orig_data_size >= 2^31 (re-sealed): refused as a bad header by every path before the value is used */
+                           if (kind == 3) { ref_put64(tmp[ntmp] + REF_OFF_ORIG, 0x80000000ull + rng_below(&r, 1000)); kind = 2; ref_put32(tmp[ntmp] + REF_OFF_IDX, ref_get32((uint8_t *)lst[w] + REF_OFF_IDX)); ref_hdr_reseal(tmp[ntmp], 0); lst[w] = (char *)tmp[ntmp]; ntmp++; goto resealed_done; }
+                           if (kind == 0) ref_put32(tmp[ntmp] + REF_OFF_IDX, (uint32_t)(n + rng_below(&r, 3))); else if (kind == 1) tmp[ntmp][REF_OFF_BEID] ^= 1; else ref_put32(tmp[ntmp] + REF_OFF_IDX, rng_below(&r, (uint32_t)n)); ref_hdr_reseal(tmp[ntmp], 0); }
                     lst[w] = (char *)tmp[ntmp]; ntmp++;
                 }
+resealed_done: ;
                 static char *dummy[1];
                 char *out = NULL; uint64_t ol = 0;
                 int rc = liberasurecode_decode(L->desc, cnt ? lst : dummy, cnt, L->s.flen, (int)rng_below(&r, 2), &out, &ol);
@@ -642,6 +657,57 @@ static void run_history_ops(int hidx, int len)
     q_delta(&q0, "C16", "end of history (all instances destroyed, all outputs cleaned up)", 0, 1);
 }
 
+/* systematic part: every erasure set within tolerance of every flat-XOR table (each of the ten
+ * failure-pattern branches, incl. the three-data P xor Q path that allocates a temporary) and of a
+ * spread of RS / ISA-L shapes, decode + reconstruct under the conservation monitor */
+static void run_leaks_systematic(void)
+{
+    static cfg_t cfgs[400]; int nc = cfgs_xor(cfgs, 400);
+    nc += cfgs_rs(cfgs + nc, 400 - nc, EC_BACKEND_LIBERASURECODE_RS_VAND, 0, MO.seed);
+    if (isal_ok) { nc += cfgs_rs(cfgs + nc, 400 - nc, EC_BACKEND_ISA_L_RS_VAND, 0, MO.seed); nc += cfgs_rs(cfgs + nc, 400 - nc, EC_BACKEND_ISA_L_RS_CAUCHY, 0, MO.seed); }
+    for (int ci = 0; ci < nc; ci++) {
+        cfg_t c = cfgs[ci]; c.ct = (ci & 1) ? CHKSUM_CRC32 : CHKSUM_NONE;
+        int n = c.k + c.m, tol = cfg_tol(&c);
+        live_t L; int ok = 0;
+        char ck[96]; cfg_key(&c, ck, sizeof ck);
+        if (mon_case_all("%s|systematic-setup", ck)) { ok = live_open(&L, &c, (uint64_t)c.k * 20 + 3, MO.seed) == 0; if (!ok) mon_viol("C16", "setup-failed", "create/encode failed"); ledger_refresh(); mon_end(); }
+        if (!ok) continue;
+        uint32_t full = n == 32 ? 0xffffffffu : ((1u << n) - 1);
+        int exhaustive = c.be == EC_BACKEND_FLAT_XOR_HD || n <= 10;
+        int nsets = 0;
+        for (int sz = 1; sz <= tol; sz++) {
+            int cb[32]; comb_first(cb, sz);
+            rng_t r; rng_seed(&r, MO.seed, mon_hash_str(ck, (uint64_t)sz));
+            int budget = exhaustive ? 1 << 30 : (MO.thorough ? 400 : 60);
+            do {
+                int e[32]; memcpy(e, cb, sizeof(int) * (size_t)sz);
+                if (!exhaustive) { int perm[32]; for (int i = 0; i < n; i++) perm[i] = i; rng_shuffle(&r, perm, n); memcpy(e, perm, sizeof(int) * (size_t)sz); }
+                uint32_t er = mask_of(e, sz);
+                char em[128]; mask_str(er, n, em, sizeof em);
+                if (mon_case("%s|systematic|E=%s", ck, em)) {
+                    qp_t q; q_begin(&q);
+                    char *lst[64]; int cnt = 0;
+                    for (int i = 0; i < n; i++) if (!((er >> i) & 1)) lst[cnt++] = (char *)L.s.frag[i];
+                    char *out = NULL; uint64_t ol = 0;
+                    int rc = liberasurecode_decode(L.desc, lst, cnt, L.s.flen, sz & 1, &out, &ol);
+                    if (rc == 0) liberasurecode_decode_cleanup(L.desc, out);
+                    char *o = malloc(L.s.flen);
+                    for (int i = 0; i < sz; i++) liberasurecode_reconstruct_fragment(L.desc, lst, cnt, L.s.flen, e[i], o);
+                    free(o);
+                    mon_count("evaluations", 1 + sz); mon_count("systematic_sets", 1);
+                    q_zero(&q, "C16", "decode+cleanup and reconstruct of an erasure set within tolerance");
+                    mon_distinct("nontrivial", mon_hash_u64(er, mon_hash_str(ck, 161)));
+                    if (++nsets % 64 == 0) q_leakcheck("C16", "systematic erasure sets");
+                    mon_end();
+                }
+                (void)full;
+                if (!exhaustive && --budget <= 0) break;
+            } while (exhaustive ? comb_next(cb, sz, n) : 1);
+        }
+        if (mon_case_all("%s|systematic-teardown", ck)) { live_close(&L); q_leakcheck("C16", "after destroying the instance"); mon_end(); }
+    }
+}
+
 static void run_leaks(void)
 {
     ledger_refresh();
@@ -661,6 +727,7 @@ static void run_leaks(void)
         if (h % 211 == 0) mon_sample("{\"history\":%d,\"length\":%d,\"ops\":\"random over create/destroy/encode/decode(ok,too-few,unrecoverable,dup,bad-header,resealed)/reconstruct(ok,too-few,bad-dest)/needed/metadata/validate/invalid-arg/bad-create/sizes\"}", h, len);
         mon_end();
     }
+    run_leaks_systematic();
     if (mon_case_all("final-leakcheck")) { q_leakcheck("C16", "end of all histories"); mon_end(); }
 }
 
